@@ -300,7 +300,7 @@ def case_refusal(ctx, index, rng: random.Random):
     rec.mon("C05.add.refusal")
     e1 = gen.edges(rng, rng.randint(1, 6))
     a = physt.h1(np.asarray(gen.data_for_bins(rng, gen.pairs_from_edges(e1), 10)), np.array(e1))
-    kind = rng.choice(["bins", "dim", "nonhist", "array", "adaptive_missed", "array_after_free_block", "bins_few_ulp"])
+    kind = rng.choice(["bins", "dim", "nonhist", "array", "adaptive_missed", "array_after_free_block", "bins_few_ulp", "zero_dim_array"])
     if kind == "bins_few_ulp":
         # bins that are only a few ulp of their edges wide (micro-second time stamps, large counters): every edge is an exact
         # number, and bins one or more whole bins apart are different bins
@@ -332,6 +332,10 @@ def case_refusal(ctx, index, rng: random.Random):
                 r = a + b if rng.random() < 0.5 else b + a
             elif kind == "nonhist":
                 r = a + rng.choice([1, 2.5, "x", None])
+            elif kind == "zero_dim_array":
+                # only the number 0 may start a sum: an array without axes is an array operand all the same (numpy says ndim 0, not scalar)
+                z = rng.choice([np.array(0), np.zeros(()), np.array(0.0)])
+                r = (z + a) if rng.random() < 0.5 else sum([a, a.copy()], z)
             elif kind == "array":
                 r = a + np.ones(a.shape)
             elif kind == "array_after_free_block":
